@@ -18,7 +18,6 @@ import inspect
 import os
 import random
 import sys
-import textwrap
 import time
 import traceback
 
@@ -27,6 +26,36 @@ _POOL = 6
 
 
 # =============================================================================================== helpers
+class _Timeout(BaseException):
+    """raised by the alarm below; a BaseException so that `except Exception` handlers inside sqlfluff do not swallow it"""
+
+
+class _deadline:
+    """with _deadline(seconds): ...   -- SIGALRM based, main thread of the (worker) process only; no-op elsewhere"""
+
+    def __init__(self, seconds):
+        self.seconds = int(seconds)
+        self.armed = False
+
+    def __enter__(self):
+        import signal
+        import threading
+        if threading.current_thread() is threading.main_thread():
+            def handler(signum, frame):
+                raise _Timeout()
+            self.old = signal.signal(signal.SIGALRM, handler)
+            signal.alarm(self.seconds)
+            self.armed = True
+        return self
+
+    def __exit__(self, *exc):
+        if self.armed:
+            import signal
+            signal.alarm(0)
+            signal.signal(signal.SIGALRM, self.old)
+        return False
+
+
 def _failed(id_, function, detail, kind="bounded", name=None):
     return {"name": name or id_, "id": id_, "kind": kind, "status": "failed", "function": function, "detail": detail,
             "reproduced": True, "backend": "CPython (bounded run of the real code)" if kind == "bounded" else "ast"}
@@ -515,14 +544,14 @@ def _limit_inputs():
 
 
 _LIM_STATE = {}
+_CALL_LIMIT_S = 90       # a single lint / parse / fix of these inputs takes well under 10 s
 
 
 def _install_limit_probes():
     """read-only observers on the real ParseContext: was a configured limit reached during this call?"""
     if _LIM_STATE.get("installed"):
         return
-    from contextlib import contextmanager
-    from sqlfluff.core.parser.context import ParseContext
+        from sqlfluff.core.parser.context import ParseContext
     from sqlfluff.core.linter.linter import Linter
     st = _LIM_STATE
     st.update(installed=True, hits=[], ntokens=[])
@@ -561,27 +590,30 @@ def _limit_task(task):
     rec = {"label": label, "dialect": dialect, "depth": depth, "nodes": nodes, "api": api}
     t0 = time.time()
     try:
-        cfg = FluffConfig(overrides={"dialect": dialect, "max_parse_depth": depth, "max_parse_nodes": nodes})
-        if api == "lint_string":
-            lf = Linter(config=cfg).lint_string(sql, fix=True)
-            vs = [(v.rule_code(), v.desc()) for v in lf.get_violations(filter_ignore=False, filter_warning=False)]
-            rec["tree_none"] = lf.tree is None
-        elif api == "parse_string":
-            ps = Linter(config=cfg).parse_string(sql)
-            vs = [(v.rule_code(), v.desc()) for v in ps.violations]
-            rec["tree_none"] = ps.root_variant() is None
-        elif api == "api_lint":
-            out = sqlfluff.lint(sql, config=cfg)
-            vs = [(d["code"], d["description"]) for d in out]
-            rec["type_ok"] = isinstance(out, list)
-        elif api == "api_fix":
-            out = sqlfluff.fix(sql, config=cfg)
-            vs = None
-            rec["type_ok"] = isinstance(out, str)
-            rec["unchanged"] = out == sql
-        else:
-            raise AssertionError(api)
-        rec["violations"] = vs
+        with _deadline(_CALL_LIMIT_S):
+            cfg = FluffConfig(overrides={"dialect": dialect, "max_parse_depth": depth, "max_parse_nodes": nodes})
+            if api == "lint_string":
+                lf = Linter(config=cfg).lint_string(sql, fix=True)
+                vs = [(v.rule_code(), v.desc()) for v in lf.get_violations(filter_ignore=False, filter_warning=False)]
+                rec["tree_none"] = lf.tree is None
+            elif api == "parse_string":
+                ps = Linter(config=cfg).parse_string(sql)
+                vs = [(v.rule_code(), v.desc()) for v in ps.violations]
+                rec["tree_none"] = ps.root_variant() is None
+            elif api == "api_lint":
+                out = sqlfluff.lint(sql, config=cfg)
+                vs = [(d["code"], d["description"]) for d in out]
+                rec["type_ok"] = isinstance(out, list)
+            elif api == "api_fix":
+                out = sqlfluff.fix(sql, config=cfg)
+                vs = None
+                rec["type_ok"] = isinstance(out, str)
+                rec["unchanged"] = out == sql
+            else:
+                raise AssertionError(api)
+            rec["violations"] = vs
+    except _Timeout:
+        rec["raised"] = {"class": "timeout", "message": f"no result within {_CALL_LIMIT_S} s", "site": "?"}
     except BaseException as e:     # noqa -- the observable of C04
         tb = traceback.extract_tb(e.__traceback__)
         site = next((f"{os.path.basename(f.filename)}:{f.name}" for f in reversed(tb) if "sqlfluff" in f.filename), "?")
@@ -719,6 +751,7 @@ def _fuzz_inputs(rng, n):
 
 
 _LINTERS = {}
+_FUZZ_LIMIT_S = 45       # inputs are at most 40 characters long: typical 0.03-0.3 s
 
 
 def _fuzz_linter(dialect, templater):
@@ -750,9 +783,12 @@ def _fuzz_one(s, dialect, templater):
     lnt.parse_string = parse_string
     try:
         try:
-            lf = lnt.lint_string(s, fix=True)
+            with _deadline(_FUZZ_LIMIT_S):
+                lf = lnt.lint_string(s, fix=True)
         finally:
             del lnt.parse_string
+    except _Timeout:
+        return ("timeout", "lint_string", {"message": f"no result within {_FUZZ_LIMIT_S} s for an input of {len(s)} characters"})
     except BaseException as e:     # noqa -- the observable of C04
         if isinstance(e, (KeyboardInterrupt, SystemExit)):
             raise
@@ -889,7 +925,7 @@ MUTANTS = [
      "            linter_logger.info(\"PARSING FAILED! : %s\", err)\n            violations.append(err)\n            return None, violations",
      "            linter_logger.info(\"PARSING FAILED! : %s\", err)\n            raise"),
     ("render_string_templater_error_escapes", "sqlfluff/core/linter/linter.py",
-     "        except SQLTemplaterError as templater_err:\n", "        except SQLFluffUserError as templater_err:\n"),
+     "        except SQLTemplaterError as templater_err:\n", "        except SQLLexError as templater_err:\n"),
     ("crawl_try_narrowed", "sqlfluff/core/rules/base.py",
      "            # Any exception at this point would halt the linter and\n            # cause the user to get no results\n            except Exception as e:",
      "            # Any exception at this point would halt the linter and\n            # cause the user to get no results\n            except ZeroDivisionError as e:"),
